@@ -91,7 +91,7 @@ Valid(def) ==
          /\ (IF "skip_first" \in DOMAIN def THEN def.n - 1 ELSE def.n) <= 256      \* encodable variants
          /\ "first_attr" \in DOMAIN def => def.first_attr <= 255 /\ def.first_attr \notin 1..(def.n - 1)
     [] def.kind = "union" -> FALSE
-    [] def.kind = "compactas" -> def.shape = "struct" /\ def.nonskipped = 1
+    [] def.kind = "compactas" -> def.shape \in {"struct", "tuple"} /\ def.nonskipped = 1
 
 Layout(def) ==
   CASE def.kind = "struct" -> [k |-> "tuple", ts |-> Encoded(def.fs), sz |-> 0]
